@@ -8,7 +8,7 @@ META = {
     "text": "TLC explores the offline-credential-cache machine (server password, per-machine cache = password x sealing key, "
             "online login, server password change, offline login, cached record copied to the other machine) exhaustively against "
             "the property (offline accept => password = last one verified online on this machine and record sealed with this "
-            "machine's key). Every canonical behaviour of length 4 (thorough: plus every third of length 5) ending in an offline login is replayed on "
+            "machine's key). Every canonical behaviour of length 4 (thorough: plus every eighth of length 5) ending in an offline login is replayed on "
             "the real code: all of them on the real cache helpers (kanidm_update/check_cached_password = argon2id keyed through a "
             "soft-TPM HMAC key, one TPM context + machine key per machine), a sample on the real KanidmProvider "
             "(unix_user_online_auth_step against a scripted HTTP endpoint answering _unix/_auth, unix_user_offline_auth_init/_step) "
@@ -41,11 +41,11 @@ def run(tier, replay):
     cases = unixlib.cases_from(mh)
     hstates, htrans = mh["distinct"], mh["generated"]
     if not quick:
-        # all behaviours of length 4 plus every third behaviour of length 5
+        # all behaviours of length 4 plus every eighth behaviour of length 5
         m5 = lib.tlc("KUnixOfflineMC", cfg="KUnixOfflineMCh5", pid=PID, workers=8, timeout=1800, xmx="8g")
         lib.tlc_must_pass(m5, "KUnixOfflineMCh5: behaviours of length 5 with history")
         c5 = unixlib.cases_from(m5)
-        cases = cases + sorted(c5, key=lambda c: json.dumps(c, sort_keys=True))[::3]
+        cases = cases + sorted(c5, key=lambda c: json.dumps(c, sort_keys=True))[::8]
         hstates += m5["distinct"]; htrans += m5["generated"]
     if not cases:
         lib.tool_error("no behaviours extracted from the model")
